@@ -52,6 +52,48 @@ func c03Writer(args []string) int {
 	n := 0
 	var lastPut hash.Hash
 	havePut := false
+	if shape == "batches" {
+		// |steps| commits of > 16384 novel chunks each: every commit flushes one complete (checksummed) index batch
+		var last hash.Hash
+		for b := 0; b < steps; b++ {
+			for j := 0; j < 16500+r.Intn(600); j++ {
+				body := make([]byte, 6+r.Intn(20))
+				r.Read(body)
+				var refs []hash.Hash
+				if j%211 == 0 && !last.IsEmpty() {
+					refs = append(refs, last)
+				}
+				ch := chunks.NewChunk(oracle.EncodeChunkData(refs, append(body, byte(b), byte(j), byte(j>>8), byte(seed))))
+				if err := st.Put(bg, ch, oracle.GetAddrsCurry); err != nil {
+					fmt.Fprintln(os.Stderr, "put:", err)
+					return 1
+				}
+				last = ch.Hash()
+			}
+			n++
+			mark(fmt.Sprintf("BEGIN %d %s", n, last))
+			ok, err := st.Commit(bg, last, root)
+			if err != nil || !ok {
+				fmt.Fprintln(os.Stderr, "commit:", ok, err)
+				return 1
+			}
+			root = last
+			mark(fmt.Sprintf("ACK %d %s", n, last))
+			if r.Intn(2) == 0 { // a small ordinary commit in between
+				ch := chunks.NewChunk(oracle.EncodeChunkData([]hash.Hash{last}, []byte(fmt.Sprintf("small-%d-%d", seed, b))))
+				if err := st.Put(bg, ch, oracle.GetAddrsCurry); err != nil {
+					return 1
+				}
+				if ok, err := st.Commit(bg, ch.Hash(), root); err != nil || !ok {
+					return 1
+				}
+				root = ch.Hash()
+			}
+		}
+		mark("CLOSE 0 " + root.String())
+		st.Close()
+		return 0
+	}
 	if shape == "huge" {
 		// (1) a commit with > 16384 novel chunks (flushes a journal index record), (2) a second ordinary commit or not,
 		// (3) > 64 MB of chunk records without a commit (forces the intermediate sync that re-commits the current
